@@ -1,13 +1,96 @@
 import Thanos.Common.Parse
+import Thanos.Model.Quorum
 /-
   Line-protocol driver of the `receive` family (C22 C23 C24 C25 C26).
   One request per line, one answer per line; every line is self-contained.
+
+  fan <entry> <rf> <rep> <placement> <scripts>                    (C22, C23)
+      entry      h = HTTP receiveHTTP (answer: status code) | g = gRPC RemoteWrite (answer: code name)
+      rf         replication factor (≥ 1)
+      rep        replica header / field: 0 = not yet replicated, k > 0 = already replicated as replica k
+      placement  series separated by `,`; per series the endpoint index of replica 0,1,… joined by `.`
+      scripts    arrival orders separated by `/`; an order is `e:r:o` entries joined by `,`
+                 (endpoint, replica, outcome); outcomes: k ok | c AlreadyExists | C errConflict |
+                 o out-of-order sample | u gRPC Unavailable | U errUnavailable | n errNotReady |
+                 N tsdb.ErrNotReady | x gRPC Internal | X plain error
+      answer     <writes> <status>/<status>/…      writes = `e:r:id.id` sorted, joined by `,`
 -/
 open Thanos Thanos.Parse
 
 namespace Thanos.Driver.Receive
+open Thanos.Quorum
+
+def parseOutcome : String → Option Outcome
+  | "k" => some none
+  | "c" => some (some kConflict)
+  | "C" => some (some kConflict)
+  | "o" => some (some kConflict)
+  | "u" => some (some kGrpcUnavail)
+  | "U" => some (some kUnavail)
+  | "n" => some (some kNotReady)
+  | "N" => some (some kNotReady)
+  | "x" => some (some kOther)
+  | "X" => some (some kOther)
+  | _ => none
+
+def parseEntry (s : String) : Option ((Nat × Nat) × Outcome) :=
+  match splitChar ':' s with
+  | [e, r, o] => do
+    let e ← parseNat? e
+    let r ← parseNat? r
+    let o ← parseOutcome o
+    pure ((e, r), o)
+  | _ => none
+
+def parseScript (s : String) : Option (List ((Nat × Nat) × Outcome)) := (listOf ',' s).mapM parseEntry
+
+def parsePlacement (s : String) : Option (List (List Nat)) := (listOf ',' s).mapM (parseNats? '.')
+
+/-- insertion sort of the writes by (endpoint, replica) -/
+def insertWrite (w : (Nat × Nat) × List Nat) : Writes → Writes
+  | [] => [w]
+  | v :: vs => if w.1.1 < v.1.1 ∨ (w.1.1 = v.1.1 ∧ w.1.2 ≤ v.1.2) then w :: v :: vs else v :: insertWrite w vs
+
+def showWrites (ws : Writes) : String :=
+  joinWith "," ((ws.foldr insertWrite []).map fun w => s!"{w.1.1}:{w.1.2}:{showNats "." w.2}")
+
+def showGrpc : GrpcCode → String
+  | .ok => "ok"
+  | .unavailable => "unavail"
+  | .alreadyExists => "exists"
+  | .invalidArgument => "invalid"
+  | .internal => "internal"
+
+def nodupKeys : List (Nat × Nat) → Bool
+  | [] => true
+  | k :: ks => !ks.contains k && nodupKeys ks
+
+/-- `none` = ill-formed op: an arrival order must name every write exactly once (a write that is
+    never answered would block the real handler until the forward timeout) -/
+def showHandled (http : Bool) (script : List ((Nat × Nat) × Outcome)) : Handled → Option (String × String)
+  | .badReplica => some ("-", if http then "400" else "invalid")
+  | .hashringError => some ("-", if http then "500" else "internal")
+  | .badScript => none
+  | .done ws r =>
+    if script.length = ws.length ∧ nodupKeys (script.map (·.1)) then
+      some (showWrites ws, if http then toString (httpStatus r) else showGrpc (grpcCode r))
+    else none
+
+def fan (http : Bool) (rf rep : Nat) (pl : List (List Nat)) (scripts : List (List ((Nat × Nat) × Outcome))) : String :=
+  match scripts.mapM (fun sc => showHandled http sc (Quorum.handle codeSel rf rep pl sc)) with
+  | none => "bad-op"
+  | some [] => "bad-op"
+  | some ((w, st) :: rest) => w ++ " " ++ "/".intercalate (st :: rest.map (·.2))
 
 def handle : List String → String
+  | ["fan", entry, rf, rep, placement, scripts] =>
+    match parseNat? rf, parseNat? rep, parsePlacement placement, (splitChar '/' scripts).mapM parseScript with
+    | some rf, some rep, some pl, some scs =>
+      if rf = 0 ∨ pl.isEmpty then "bad-op"
+      else if entry = "h" then fan true rf rep pl scs
+      else if entry = "g" then fan false rf rep pl scs
+      else "bad-op"
+    | _, _, _, _ => "bad-op"
   | _ => "bad-op"
 
 end Thanos.Driver.Receive
